@@ -88,9 +88,44 @@ func corpusFor(id string) []corpusItem {
 	return out
 }
 
+// runOn applies one patch to a private copy of the tree and runs this property's quick check on it.
+// Returns (output, applied).
+func runOn(c *Check, self, tmp string, idx int, patch string) (string, bool, error) {
+	scratch := filepath.Join(tmp, fmt.Sprintf("repo-%d", idx))
+	vd := filepath.Join(tmp, fmt.Sprintf("verif-%d", idx))
+	defer os.RemoveAll(scratch)
+	defer os.RemoveAll(vd)
+	// copy the current working tree (without .git) — rebuilt from /repo on every run
+	cp := exec.Command("rsync", "-a", "--exclude", ".git", "--exclude", ".task", c.P.Dir+"/", scratch+"/")
+	if out, err := cp.CombinedOutput(); err != nil {
+		return "", false, fmt.Errorf("copying the tree failed: %v %s", err, out)
+	}
+	if err := exec.Command("patch", "-p1", "-s", "-d", scratch, "-i", patch).Run(); err != nil {
+		return "", false, nil
+	}
+	os.MkdirAll(filepath.Join(vd, "evidence"), 0o755)
+	if b, err := os.ReadFile(filepath.Join(verifDir(), "known_findings.json")); err == nil {
+		os.WriteFile(filepath.Join(vd, "known_findings.json"), b, 0o644)
+	}
+	run := exec.Command(self, "check", c.ID, "--tier", "quick")
+	run.Env = append(os.Environ(), "VERIF_REPO="+scratch, "VERIF_DIR="+vd, "VERIF_TIER=quick")
+	out, _ := run.CombinedOutput()
+	return string(out), true, nil
+}
+
 func runCorpus(c *Check) {
 	items := corpusFor(c.ID)
-	if len(items) == 0 {
+	// silence corpus: the behaviour-preserving refactorings written against this property
+	refs, _ := filepath.Glob(filepath.Join(verifDir(), "refactors", "*", "patch.diff"))
+	sort.Strings(refs)
+	var refItems []corpusItem
+	for _, rp := range refs {
+		name := filepath.Base(filepath.Dir(rp))
+		if strings.HasPrefix(name, c.ID+"-") || strings.Contains(name, "-"+c.ID+"-") {
+			refItems = append(refItems, corpusItem{name, rp})
+		}
+	}
+	if len(items) == 0 && len(refItems) == 0 {
 		c.Notef("thorough: no corpus item targets %s", c.ID)
 		return
 	}
@@ -105,45 +140,68 @@ func runCorpus(c *Check) {
 		return
 	}
 	defer os.RemoveAll(tmp)
+	type res struct {
+		out     string
+		applied bool
+		err     error
+	}
+	all := append(append([]corpusItem{}, items...), refItems...)
+	results := make([]res, len(all))
+	sem := make(chan struct{}, 6) // six copies of the tree are analysed at a time
+	done := make(chan int, len(all))
+	for i := range all {
+		go func(i int) {
+			sem <- struct{}{}
+			out, applied, err := runOn(c, self, tmp, i, all[i].Patch)
+			results[i] = res{out, applied, err}
+			<-sem
+			done <- i
+		}(i)
+	}
+	for range all {
+		<-done
+	}
 	killed, skipped := 0, 0
-	var results []string
-	for _, it := range items {
-		scratch := filepath.Join(tmp, "repo")
-		os.RemoveAll(scratch)
-		// copy the current working tree (without .git) — rebuilt from /repo on every run
-		cp := exec.Command("rsync", "-a", "--exclude", ".git", "--exclude", ".task", c.P.Dir+"/", scratch+"/")
-		if out, err := cp.CombinedOutput(); err != nil {
-			c.Errorf("thorough: copying the tree failed: %v %s", err, out)
-			return
-		}
-		ap := exec.Command("git", "apply", "--unsafe-paths", "--directory="+scratch, it.Patch)
-		ap.Dir = scratch
-		if err := exec.Command("patch", "-p1", "-s", "-d", scratch, "-i", it.Patch).Run(); err != nil {
+	var lines []string
+	for i, it := range items {
+		r := results[i]
+		switch {
+		case r.err != nil:
+			c.Errorf("thorough: %v", r.err)
+		case !r.applied:
 			skipped++
-			results = append(results, it.Name+": skipped (patch no longer applies to the current tree)")
-			continue
-		}
-		_ = ap
-		vd := filepath.Join(tmp, "verif")
-		os.RemoveAll(vd)
-		os.MkdirAll(filepath.Join(vd, "evidence"), 0o755)
-		if b, err := os.ReadFile(filepath.Join(verifDir(), "known_findings.json")); err == nil {
-			os.WriteFile(filepath.Join(vd, "known_findings.json"), b, 0o644)
-		}
-		run := exec.Command(self, "check", c.ID, "--tier", "quick")
-		run.Env = append(os.Environ(), "VERIF_REPO="+scratch, "VERIF_DIR="+vd, "VERIF_TIER=quick")
-		out, _ := run.CombinedOutput()
-		if strings.Contains(string(out), "VIOLATION property="+c.ID) {
+			lines = append(lines, it.Name+": skipped (patch no longer applies to the current tree)")
+		case strings.Contains(r.out, "VIOLATION property="+c.ID):
 			killed++
-			results = append(results, it.Name+": reported")
-		} else {
-			results = append(results, it.Name+": NOT reported")
+			lines = append(lines, it.Name+": reported")
+		default:
+			lines = append(lines, it.Name+": NOT reported")
 			c.Errorf("thorough: corpus change %s (a confirmed violation of %s) is no longer reported by this check: the checker regressed", it.Name, c.ID)
 		}
 	}
-	c.Extra["corpus"] = map[string]any{"items": len(items), "reported": killed, "skipped": skipped, "results": results,
-		"how": "each change applied with patch(1) to an rsync copy of /repo's working tree under $TMPDIR, `taskverif check " + c.ID + "` run on the copy, copy removed"}
-	fmt.Fprintf(os.Stderr, "%s thorough: corpus %d/%d reported (%d skipped)\n", c.ID, killed, len(items)-skipped, skipped)
+	nSilent, nRefSkipped := 0, 0
+	var refLines []string
+	for j, it := range refItems {
+		r := results[len(items)+j]
+		switch {
+		case r.err != nil:
+			c.Errorf("thorough: %v", r.err)
+		case !r.applied:
+			nRefSkipped++
+			refLines = append(refLines, it.Name+": skipped (patch no longer applies to the current tree)")
+		case strings.Contains(r.out, "VIOLATION property=") || strings.Contains(r.out, "ERROR property="):
+			refLines = append(refLines, it.Name+": ALARM")
+			c.Errorf("thorough: the behaviour-preserving refactoring %s makes this check raise an alarm: the checker regressed (false alarm)", it.Name)
+		default:
+			nSilent++
+			refLines = append(refLines, it.Name+": silent")
+		}
+	}
+	how := "each change applied with patch(1) to an rsync copy of /repo's working tree under $TMPDIR, `taskverif check " + c.ID + "` run on the copy (six at a time), copy removed"
+	c.Extra["corpus"] = map[string]any{"items": len(items), "reported": killed, "skipped": skipped, "results": lines, "how": how}
+	c.Extra["silence_corpus"] = map[string]any{"items": len(refItems), "silent": nSilent, "skipped": nRefSkipped, "results": refLines,
+		"how": "every stored behaviour-preserving refactoring that targets this property, applied the same way: the check must print neither VIOLATION nor ERROR"}
+	fmt.Fprintf(os.Stderr, "%s thorough: corpus %d/%d reported (%d skipped); silence corpus %d/%d silent (%d skipped)\n", c.ID, killed, len(items)-skipped, skipped, nSilent, len(refItems)-nRefSkipped, nRefSkipped)
 }
 
 func selftest(args []string) int {
